@@ -105,6 +105,20 @@ def _atan2(y, x):
 
 atan2_ = lift2(_atan2)
 
+_ORDER = {NINF: 0, NFIN: 1, NZ: 2, PZ: 2, PFIN: 3, PINF: 4}
+
+
+def _fmax(x, y, pick_max=True):
+    """C fmax / fmin: a NaN operand is ignored (the other operand is returned); of two values in the same class either may be the larger"""
+    if x == NAN: return [y]
+    if y == NAN: return [x]
+    if _ORDER[x] == _ORDER[y]: return sorted({x, y})
+    hi, lo = (x, y) if _ORDER[x] > _ORDER[y] else (y, x)
+    return [hi if pick_max else lo]
+
+
+fmax_ = lift2(_fmax); fmin_ = lift2(lambda x, y: _fmax(x, y, False))
+
 
 def _copysign(a, b):
     if a == NAN: return [NAN]
@@ -266,6 +280,8 @@ class ClassInterp:
         if fn == 'log1p': return log1p_(self.tof(args[0]))
         if fn == 'atan2': return atan2_(self.tof(args[0]), self.tof(args[1]))
         if fn == 'copysign': return copysign_(self.tof(args[0]), self.tof(args[1]))
+        if fn == 'fmax': return fmax_(self.tof(args[0]), self.tof(args[1]))
+        if fn == 'fmin': return fmin_(self.tof(args[0]), self.tof(args[1]))
         if fn == 'ldexp': return self.tof(args[0])
         if fn in ('isinf', 'isnan', 'isfinite', 'signbit'):
             return self.decide(self.pred(fn, self.tof(args[0])), ast.unparse(e))
